@@ -35,11 +35,82 @@ class Walker(ast.NodeVisitor):
         self.effects = []
         self.fileops = []
         self.parents = []
+        self.setvars = set()
+        self.dosvars = set()
 
     def visit_FunctionDef(self, node):
         self.func.append(node.name)
+        saved = (self.setvars, self.dosvars)
+        self.setvars, self.dosvars = set(self.setvars), set(self.dosvars)
+        self.scan_set_variables(node)
         self.generic_visit(node)
+        self.setvars, self.dosvars = saved
         self.func.pop()
+
+    # ---- a small flow-insensitive inference of set-typed local names ------------------------------
+    def is_set_expr(self, e):
+        if isinstance(e, (ast.Set, ast.SetComp)):
+            return True
+        if isinstance(e, ast.Call):
+            n = dotted(e.func)
+            if n in ("set", "frozenset") or n.startswith("set.") and n.split(".")[-1] in (
+                    "intersection", "union", "difference", "symmetric_difference"):
+                return True
+            if isinstance(e.func, ast.Attribute) and e.func.attr in (
+                    "intersection", "union", "difference", "symmetric_difference", "copy") \
+                    and self.is_set_expr(e.func.value):
+                return True
+        if isinstance(e, ast.Name):
+            return e.id in self.setvars
+        if isinstance(e, ast.Subscript) and isinstance(e.value, ast.Name):
+            return e.value.id in self.dosvars
+        if isinstance(e, ast.BinOp) and isinstance(e.op, (ast.BitOr, ast.BitAnd, ast.Sub, ast.BitXor)):
+            return self.is_set_expr(e.left) or self.is_set_expr(e.right)
+        return False
+
+    def is_dos_expr(self, e):
+        if isinstance(e, ast.Call) and dotted(e.func).split(".")[-1] == "defaultdict" and e.args \
+                and dotted(e.args[0]) == "set":
+            return True
+        if isinstance(e, ast.DictComp) and self.is_set_expr(e.value):
+            return True
+        return isinstance(e, ast.Name) and e.id in self.dosvars
+
+    def bind_items_target(self, target, it):
+        """for k, v in D.items() / for v in D.values() with D a dict of sets: v is a set"""
+        if isinstance(it, ast.Call) and isinstance(it.func, ast.Attribute) and isinstance(it.func.value, ast.Name) \
+                and it.func.value.id in self.dosvars:
+            if it.func.attr == "items" and isinstance(target, ast.Tuple) and len(target.elts) == 2 \
+                    and isinstance(target.elts[1], ast.Name):
+                self.setvars.add(target.elts[1].id)
+            if it.func.attr == "values" and isinstance(target, ast.Name):
+                self.setvars.add(target.id)
+
+    def scan_set_variables(self, fn):
+        for _ in range(3):       # a few passes instead of a real fix-point
+            for n in ast.walk(fn):
+                if isinstance(n, ast.Assign) and len(n.targets) == 1 and isinstance(n.targets[0], ast.Name):
+                    if self.is_dos_expr(n.value):
+                        self.dosvars.add(n.targets[0].id)
+                    elif self.is_set_expr(n.value):
+                        self.setvars.add(n.targets[0].id)
+                elif isinstance(n, ast.For):
+                    self.bind_items_target(n.target, n.iter)
+                elif isinstance(n, ast.comprehension):
+                    self.bind_items_target(n.target, n.iter)
+        # parameters documented as sets cannot be seen; only what is constructed locally
+
+    def flag_set_var(self, how, e, line):
+        if isinstance(e, (ast.Name, ast.Subscript)) and self.is_set_expr(e):
+            self.effects.append((self.rel, self.func[-1], line, "set-order", f"{how}:{dotted(e)}", False))
+
+    def visit_For(self, node):
+        self.flag_set_var("for", node.iter, node.lineno)
+        self.generic_visit(node)
+
+    def visit_comprehension(self, node):
+        self.flag_set_var("for", node.iter, getattr(node.iter, "lineno", 0))
+        self.generic_visit(node)
 
     visit_AsyncFunctionDef = visit_FunctionDef
 
@@ -97,6 +168,12 @@ class Walker(ast.NodeVisitor):
         elif name in ("time.time", "time.perf_counter", "uuid.uuid4", "os.getpid", "datetime.datetime.now",
                       "datetime.now"):
             add("clock", name, False)
+        elif last in ("list", "tuple", "join", "enumerate", "array", "next", "iter") and node.args and \
+                isinstance(node.args[0], (ast.Name, ast.Subscript)) and self.is_set_expr(node.args[0]):
+            add("set-order", f"{last}:{dotted(node.args[0])}", False)
+        elif last == "pop" and isinstance(node.func, ast.Attribute) and not node.args and \
+                isinstance(node.func.value, (ast.Name, ast.Subscript)) and self.is_set_expr(node.func.value):
+            add("set-order", f"pop:{dotted(node.func.value)}", False)
         elif name in ("set", "frozenset") and node.args:
             # a set whose iteration order may escape: list(set(..)), "..".join(set(..)), for .. in set(..)
             esc = None
